@@ -1279,7 +1279,7 @@ class FnAnalysis:
             self.frames.pop()
             self._ret_states = saved_ret
             self.paths = saved_paths
-        if res is None or len(res) == 0 or len(res) > 16:
+        if res is None or len(res) == 0 or len(res) > 64:
             return None
         if not hasattr(self, "_inlinable"):
             self._inlinable = set()
@@ -1333,6 +1333,14 @@ class FnAnalysis:
                 outs.append((s, ("unit",)))
                 continue
             fn = e.get("fn") or ("<method:%s>" % e["name"])
+            if fn == "core::bool::<impl bool>::then_some" and len(vals) == 2:
+                # `c.then_some(x)` is `if c { Some(x) } else { None }` (the argument is evaluated either way)
+                known = _const_truth(vals[0])
+                for outcome in ((known,) if known is not None else (False, True)):
+                    sb = s.fork() if (known is None and outcome is False) else s
+                    self.ev(sb, "decide", e, how="if", outcome=outcome, cond=vals[0], cond_node=e["recv"], folded=known is not None)
+                    outs.append((sb, ("call", "core::option::Option::Some", (vals[1],), None) if outcome else ("call", "core::option::Option::None", (), None)))
+                continue
             if self.can_inline(fn):
                 res = self.inline_call(e, s, fn, exprs, vals)
                 if res is not None:
